@@ -13,7 +13,10 @@
 //	             points a fresh process on a copy of the directory) compile successfully, give
 //	             the uncached trace and leave the reference entry under the final name
 //	trunc        the reference entry cut to n bytes is put under the final name: CompileModule
-//	             of a fresh runtime errors, or succeeds with the uncached trace
+//	             of a fresh runtime errors, or succeeds having discarded the entry (final name
+//	             then absent or holding the reference) with the uncached trace; succeeding with
+//	             the cut entry still in place (a cache hit) is a violation, except for the
+//	             never-read tail of an entry without code
 //	version      the version field of the entry is replaced (header re-serialised): as trunc,
 //	             and on success the stale entry must be gone or replaced by the reference
 //	corrupt      one byte of the code body / CRC field is changed: as trunc (CRC must catch it)
@@ -23,9 +26,9 @@
 //	concurrent   G goroutines (own cache handles and runtimes) and P processes compile into one
 //	             directory at once: no error, uncached traces, final file = reference
 //
-// Whenever CompileModule succeeds while a faulty entry is still in place, the module is not
-// executed in the shard but in a child process with a timeout (a crash or hang there is a
-// violation, not the death of the shard).
+// Whenever CompileModule succeeds while a faulty entry is still in place this is a violation
+// (the entry was accepted as a cache hit); the module is then executed in a child process with
+// a timeout, never in the shard, to describe what the accepted entry does.
 package c13
 
 import (
@@ -303,8 +306,10 @@ type layout struct {
 	HeaderEnd int // end of magic+verlen+version+nfuncs
 	ExecStart int // end of offset table and code length
 	ExecEnd   int
-	TrailerAt int // = ExecEnd: CRC (if code non-empty), source-map flag, source map
-	SMStart   int // first byte after the source-map flag
+	TrailerAt int  // = ExecEnd: CRC (if code non-empty), source-map flag, source map
+	SMStart   int  // first byte after the source-map flag
+	HasSM     bool // the entry ends with a source map (flag 1)
+	SMPairs   int
 	Len       int
 }
 
@@ -359,6 +364,7 @@ func parseEntry(b []byte) (layout, error) {
 			return l, fmt.Errorf("short source map")
 		}
 		p += int(n) * 16
+		l.HasSM, l.SMPairs = true, int(n)
 	} else if flag != 0 {
 		return l, fmt.Errorf("source-map flag %d", flag)
 	}
@@ -733,6 +739,9 @@ func newModCtx(spec *modSpec) (mc *modCtx, err error) {
 	}
 	if mc.lay, err = parseEntry(mc.ref); err != nil {
 		return nil, fmt.Errorf("reference entry does not have the documented layout: %v", err)
+	}
+	if spec.Dwarf && len(spec.Funcs) > 0 && (!mc.lay.HasSM || mc.lay.SMPairs == 0) {
+		return nil, fmt.Errorf("module with DWARF sections and %d functions: the entry does not end with a source map (the truncation of the source-map tail would not be exercised)", len(spec.Funcs))
 	}
 	if mc.lay.NFuncs != len(spec.Funcs) {
 		return nil, fmt.Errorf("reference entry lists %d functions, module has %d", mc.lay.NFuncs, len(spec.Funcs))
@@ -1163,33 +1172,41 @@ func (mc *modCtx) faultEntry(f fault, entry []byte) (msg string, labels []string
 	if f.Kind == "version" {
 		return fmt.Sprintf("%s: CompileModule succeeded but the entry of the foreign version is still in place (neither replaced nor removed)", what), labels, nil
 	}
-	labels = append(labels, f.Kind+":accepted-faulty-entry")
+	// Exemption (documented in check.json): the entry of a module WITHOUT code. The writer
+	// appends the checksum also after an empty code segment, the reader does not read it there
+	// and takes its first byte (0) as the source-map flag; cutting the entry anywhere behind
+	// that byte removes only bytes that are never read, and there is no code to execute.
+	exempt := f.Kind == "trunc" && mc.lay.ExecEnd == mc.lay.ExecStart && f.Len > mc.lay.ExecEnd
 	s.close()
 	r, err := mc.spawn(dir, riskyTimeout)
 	if err != nil {
 		return "", labels, err
 	}
-	if r.timedOut {
-		return fmt.Sprintf("%s: CompileModule accepted the entry; executing the module hung (killed after %s)", what, riskyTimeout), labels, nil
-	}
-	if r.signaled || (r.out == nil && r.exit != 0) {
-		return fmt.Sprintf("%s: CompileModule accepted the entry; a process executing the module crashed (%s)\n%s", what, r.status(), r.tail()), labels, nil
-	}
-	if r.out == nil {
+	detail := ""
+	switch {
+	case r.timedOut:
+		detail = fmt.Sprintf("executing the module hung (killed after %s)", riskyTimeout)
+	case r.signaled || (r.out == nil && r.exit != 0):
+		detail = fmt.Sprintf("a process executing the module crashed (%s)\n%s", r.status(), r.tail())
+	case r.out == nil:
 		return "", labels, fmt.Errorf("%s: child produced no result (%s)\n%s", what, r.status(), r.tail())
+	case r.out.Panic != "":
+		detail = "CompileModule panicked in a fresh process: " + r.out.Panic
+	case r.out.CompileErr != "":
+		detail = "a fresh process reports it: " + r.out.CompileErr
+		if exempt {
+			return "", append(labels, "trunc:no-code-entry-accepted-then-reported"), nil
+		}
+	case !mc.uncached.equal(r.out.Trace):
+		detail = fmt.Sprintf("the execution trace differs from the uncached trace\n got:      %s\n uncached: %s", r.out.Trace, mc.uncached)
+	default:
+		if exempt {
+			return "", append(labels, "trunc:no-code-entry-tail-cut-accepted(exempt)"), nil
+		}
+		detail = "the execution trace happens to equal the uncached trace"
 	}
-	if r.out.Panic != "" {
-		return fmt.Sprintf("%s: CompileModule panicked in a fresh process: %s", what, r.out.Panic), labels, nil
-	}
-	if r.out.CompileErr != "" {
-		// the shard's runtime accepted it, a fresh process reports it: accepted outcome of the oracle,
-		// but inconsistent; record it.
-		return "", append(labels, f.Kind+":accepted-then-reported"), nil
-	}
-	if !mc.uncached.equal(r.out.Trace) {
-		return fmt.Sprintf("%s: CompileModule accepted the entry and the execution trace differs from the uncached trace\n got:      %s\n uncached: %s", what, r.out.Trace, mc.uncached), labels, nil
-	}
-	return "", labels, nil
+	labels = append(labels, f.Kind+":accepted-faulty-entry")
+	return fmt.Sprintf("%s: CompileModule succeeded and the faulty entry is still in place unchanged (%d bytes, complete entry %d bytes): it was accepted as a cache hit instead of being reported or discarded and replaced; in a fresh process using it, %s", what, len(entry), len(mc.ref), detail), labels, nil
 }
 
 func (mc *modCtx) faultConcurrent(f fault) (msg string, labels []string, infra error) {
@@ -1362,6 +1379,8 @@ func foreignVersions(v string) []string {
 
 func (mc *modCtx) truncRegion(n int) string {
 	switch {
+	case mc.lay.HasSM && n >= mc.lay.Len-64:
+		return "trunc-in:source-map-last-64-bytes"
 	case n < mc.lay.HeaderEnd:
 		return "trunc-in:header"
 	case n < mc.lay.ExecStart:
@@ -1395,7 +1414,7 @@ func (mc *modCtx) truncLengths(t *rapid.T) (lens []int, exhaustive bool) {
 	for i := mc.lay.ExecEnd - 8; i <= mc.lay.SMStart+8+48; i++ { // checksum, flag, source-map length, first pairs
 		add(i)
 	}
-	for i := n - 48; i < n; i++ {
+	for i := n - 64; i < n; i++ { // the tail: the last fields read (end of the source map)
 		add(i)
 	}
 	if mc.lay.ExecEnd-mc.lay.ExecStart > 2 {
@@ -1478,7 +1497,7 @@ func moduleLabels(s *modSpec, mc *modCtx) []string {
 	add(s.Names, "name-section")
 	add(len(mc.ref) > smallEntry, "entry>4KiB")
 	add(len(mc.ref) <= smallEntry, "entry<=4KiB")
-	add(mc.lay.SMStart < mc.lay.Len, "entry-with-source-map")
+	add(mc.lay.HasSM, "entry-with-source-map")
 	traps := false
 	for _, st := range mc.uncached.Steps {
 		if strings.Contains(st, "trap:") {
@@ -1524,7 +1543,7 @@ func runSpec(t *rapid.T, spec *modSpec) {
 		}
 		evid.Case(evid.Hash64(mc.wasmID, f.Kind, f.param()), nontrivial, append(append(lbls, "fault:"+f.Kind), labels...)...)
 	}
-	cov := coverageSample{Module: mc.wasmID, Funcs: len(spec.Funcs), WasmLen: len(mc.wasm), EntryLen: len(mc.ref), SourceMap: mc.lay.SMStart < mc.lay.Len}
+	cov := coverageSample{Module: mc.wasmID, Funcs: len(spec.Funcs), WasmLen: len(mc.wasm), EntryLen: len(mc.ref), SourceMap: mc.lay.HasSM}
 
 	do(fault{Kind: "determinism"})
 	for _, p := range crashPoints(len(mc.ref)) {
